@@ -81,6 +81,61 @@ func (st *c07state) explicitPanics(scope map[*ssa.Function]bool) {
 	}
 }
 
+// ---- nil result with nil error ----
+
+// nilOrError: a function in the network-input scope that returns (T, error)
+// with T a pointer or interface never returns (nil, nil): its callers test the
+// error and then use the value (DialContext writes the handshake to the
+// net.Conn a dialer returned).  On every return path whose first result is
+// the nil literal the error result is known to be non-nil.
+func (st *c07state) nilOrError(scope map[*ssa.Function]bool) {
+	c, r := st.c, st.c.R
+	var fns []*ssa.Function
+	for fn := range scope {
+		res := fn.Signature.Results()
+		if res.Len() < 2 || !isErr(res.At(res.Len()-1).Type()) {
+			continue
+		}
+		switch res.At(0).Type().Underlying().(type) {
+		case *types.Pointer, *types.Interface:
+		default:
+			continue
+		}
+		if shortFn(fn) == "(*Dialer).DialContext" {
+			continue // (nil, resp, err): decided by C14.reply-guards / C16.conn-pairing on its own path set
+		}
+		fns = append(fns, fn)
+	}
+	sort.Slice(fns, func(i, j int) bool { return shortFn(fns[i]) < shortFn(fns[j]) })
+	n := 0
+	for _, fn := range fns {
+		ok, why := true, "every return of a nil value carries an error known to be non-nil"
+		seen := 0
+		_, err := c.exploreErr(fn, core.Opts{Unroll: 0, NonNilOnNilErr: true, MaxPaths: 200000}, func(p *core.Path) {
+			if p.End != core.EndReturn || len(p.Results) < 2 || !p.Results[0].IsNil() {
+				return
+			}
+			seen++
+			e := p.Results[len(p.Results)-1]
+			if c.nonNilErr(e) {
+				return
+			}
+			if v, decided := p.X.Decide(p.X.Eq(e, p.X.T.Const(nil, e.Type))); decided && !v {
+				return
+			}
+			ok, why = false, "the path returning at "+c.P.Pos(p.Ret.Pos())+" returns a nil "+fn.Signature.Results().At(0).Type().String()+" together with an error that may be nil ("+e.String()+"): the caller goes on to use the nil value"
+		})
+		if err != nil || seen == 0 {
+			continue
+		}
+		n++
+		r.Check("C07.nil-result", shortFn(fn), "nil-value-implies-error", fn.Pos(), ok, why)
+	}
+	if n < 3 {
+		r.Fail("C07.nil-result", "", "floor", c.fn("(*httpProxyDialer).DialContext").Pos(), fmt.Sprintf("only %d functions returning (value, error) analysed", n))
+	}
+}
+
 // ---- progress ----
 
 type lenRel int
@@ -636,9 +691,51 @@ func stepOfSSA(e ssa.Value, phi *ssa.Phi, depth int, seen map[ssa.Value]bool) (l
 
 // ---- allocation ----
 
+// inflaterReleased: the decompressor of a finished message goes back to its
+// pool.  Conn.reader is written by NextReader only, and it is set to nil only
+// after Close was called on the value it held; otherwise every compressed
+// message that is not read to io.EOF allocates a new 40 KB decompressor.
+func (st *c07state) inflaterReleased(rd *reader) {
+	c := st.c
+	f := c.P.Field("Conn", "reader")
+	rd.owners("C07.alloc", f, "(*Conn).NextReader")
+	nr := c.fn("(*Conn).NextReader")
+	ok, why := true, "Conn.reader is cleared only after Close was called on the reader it held"
+	n := 0
+	c.explore("C07.alloc", nr, core.Opts{Unroll: 0, RecordLoads: true}, func(p *core.Path) {
+		for i := range p.Events {
+			ev := &p.Events[i]
+			if ev.Kind != core.EvStore || !isFieldAddr(ev.Addr, f) || !ev.Val.IsNil() {
+				continue
+			}
+			n++
+			closed := false
+			for k := 0; k < i; k++ {
+				e := &p.Events[k]
+				if e.Kind == core.EvCall && e.Method != nil && e.Method.Name() == "Close" {
+					recv := e.Recv
+					if recv == nil && len(e.Args) > 0 {
+						recv = e.Args[0]
+					}
+					if recv != nil {
+						if _, is := fieldLoad(recv, f); is {
+							closed = true
+						}
+					}
+				}
+			}
+			if !closed {
+				ok, why = false, "Conn.reader is set to nil at "+c.P.Pos(ev.Instr.Pos())+" without Close having been called on it: the decompressor is never returned to its pool"
+			}
+		}
+	})
+	c.R.Check("C07.alloc", shortFn(nr), "inflater-closed-before-forgotten", nr.Pos(), ok && n > 0, why)
+}
+
 func (st *c07state) alloc(scope map[*ssa.Function]bool) {
 	c, r := st.c, st.c.R
 	rd := newReader(c)
+	st.inflaterReleased(rd)
 	var fns []*ssa.Function
 	for fn := range scope {
 		fns = append(fns, fn)
